@@ -43,7 +43,7 @@ IMPORTS = 'From LV Require Import Base.Prelude Forest.ExplicitToTree Forest.Expl
 MAX_NODES = 400          # unfolded forest size bound for a Coq case
 MAX_TREE = 4000          # unfolded size bound of an explicit tree that is examined further
 MAX_DERIVS = 300         # oracle bound
-CALL_TIMEOUT = 10        # seconds per lark call; a hang is a violation
+CALL_TIMEOUT = 10        # seconds per lark call; a hang is a violation (cyclic grammars: on inputs of <= 3 characters)
 
 
 class Hang(Exception):
@@ -959,6 +959,10 @@ def run_case(grammar, lexer, text, parser=None, mp=True):
 def property_verdict(parser, lexer, text, obs, cyclic, mp=True):
     """None if the property holds on this observation, else (kind, detail). obs from run_case."""
     if obs['status'] == 'hang':
+        if cyclic and len(text) > 3:
+            # the conversion of a cyclic forest enumerates cycle-free paths, which is exponential in the input length
+            # (observed: 133 s on 5 characters, terminating); only short inputs can tell a hang from that
+            return None
         return ('hang', 'parse did not terminate within %ss' % CALL_TIMEOUT)
     if obs['status'] == 'exception':
         return ('exception', 'parse raised ' + obs['exception'])
@@ -1100,7 +1104,8 @@ def run_stream(ctx, stream, ngrammars, cyclic_wanted, maxlen, cases, meta, defs,
         alphabet = 'ab'
         inputs = list(all_inputs(alphabet, maxlen))
         inputs += [''.join(rng.choice(alphabet) for _ in range(rng.randint(maxlen + 1, maxlen + 2))) for _ in range(3)]
-        inputs += ['a' * k for k in range(maxlen + 1, maxlen + 4)] + ['a' * rng.randint(2, 5) + 'b', 'b' + 'a' * rng.randint(2, 5)]
+        if not cyclic:
+            inputs += ['a' * k for k in range(maxlen + 1, maxlen + 4)] + ['a' * rng.randint(2, 5) + 'b', 'b' + 'a' * rng.randint(2, 5)]
         for text in inputs:
             obs = run_case(g, lexer, text, parser=parser)
             verdict = property_verdict(parser, lexer, text, obs, cyclic, mp=opts['maybe_placeholders'])
@@ -1159,8 +1164,8 @@ def correspond(ctx):
     cases, meta, defs = [], [], []
     k = 3 if ctx.widen else 1
     acases = ([], [], [])
-    run_stream(ctx, 'acyclic', ctx.scale(70, 700) * k, False, 4, cases, meta, defs, acases)
-    run_stream(ctx, 'cyclic', ctx.scale(20, 200) * k, True, 3, cases, meta, defs, acases)
+    run_stream(ctx, 'acyclic', ctx.scale(110, 1500) * k, False, 4, cases, meta, defs, acases)
+    run_stream(ctx, 'cyclic', ctx.scale(30, 300) * k, True, 3, cases, meta, defs, acases)
     exotic_f6(ctx, cases, meta, defs)
     check_layer_a(ctx, acases)
     ctx.extra['layer_A_forests_checked'] = len(acases[0])
